@@ -121,11 +121,11 @@ def run(ctx):
     ctx.cov.update({
         "evaluations": len(ssa_res) + nocc + nren + beh["compared"],
         "distinct_nontrivial": len(set(t for t, a, _ in q_res if re.search(r":\d+:\d+\+\d+", a))),
-        "rule": "accepted generated programs (parameters, let, tuple/struct(as)/variant/or-patterns, if-let, lambda parameters, captures in nested lambdas) x every local identifier occurrence as query position; non-trivial = distinct module with at least one binding that has a use",
+        "rule": "accepted generated programs (parameters, let, tuple / struct (shorthand and `as`) / variant patterns at every nesting, or-patterns over variants, struct patterns, tuples and nested or-patterns (first and later alternative), if-let, lambda parameters, captures in nested lambdas) x every local identifier occurrence as query / rename position; non-trivial = distinct module with at least one binding that has a use",
         "samples": samples, "traces_validated_against_impl": len(ssa_res) + len(q_res), "histograms": hist,
-        "partial": ["rename_preserves_resolution_partial: side condition = new name fresh for the module and the renamed occurrences are all occurrences of the old name (name bound once); the general case is covered by the rn oracle only",
-                    "rename_involutive / renameAt are stated on the event view of a module (Model/Scope.lean visit*), not on the printed text"],
-        "pending": ["rename_preserves_resolution without side condition", "printer round trip of the renamed module (C08/C09)"]})
+        "partial": ["rename_preserves_resolution (general, accepted modules, any number of bindings with the same name) does not cover the lambda-capture tables; rename_preserves_resolution_partial (name bound once) does",
+                    "rename theorems are stated on the event view and, via rename_tree_commutes, on the expression/pattern trees of Model/Scope.lean; member parameters and the printed text are reached by the rn oracle"],
+        "pending": ["printer round trip of the renamed module (C08/C09)"]})
     ctx.assumptions += ["new name is fresh and not a keyword (the property's precondition); rewrite::rename itself only checks lexical shape (fresh_check_unsound_counterexample)",
                         "single-module ServerState"]
     return ctx.finish(res, trusted=common.TRUSTED_COMMON + [
